@@ -1,6 +1,6 @@
 CONSTANTS
-  MaxList = 3
-  MaxPerm = 5
+  MaxList = 4
+  MaxPerm = 6
   Span = 20
   MaxShift = 40
   Fams = {"pair", "flat", "range", "func", "perm", "num", "bits"}
